@@ -120,7 +120,12 @@ def q1(rep, w):
         f = w.require_fn(CORE + kind + '_iter', 'C18')
         ctor = VM + 'new_root_obj_%s_iter' % kind
         calls = [bi for bi, t in f.calls() if callee_name(t) == ctor]
-        r.check(len(calls) == 1 and c01.all_paths_hit(f, None, set(calls)) is not None and bool(calls), '%s_iter allocates a new %s' % (kind, ty),
+        # ... and that new object is what every successful call returns (not one remembered from an earlier call)
+        forg = origins(f)
+        oks = [s_['r']['ops'][0] for b in f.blocks for s_ in b['s'] if s_.get('r', {}).get('rv') == 'agg' and s_['r'].get('adt') == 'std::result::Result' and s_['r'].get('v') == 'Ok' and s_['r'].get('ops')]
+        fresh = bool(oks) and all(op_place(o) is not None and forg.get(op_place(o)['l']) and
+                                  all(q[0][0] == 'call' and q[0][2] == ctor for q in forg.get(op_place(o)['l'], ())) for o in oks)
+        r.check(len(calls) == 1 and fresh, '%s_iter allocates a new %s' % (kind, ty),
                 '%s_iter no longer creates a fresh iterator object per call: nested loops over the same value share a cursor' % kind, f.loc())
         n = w.require_fn(OBJ + ty + '::new', 'C18')
         ok = False
@@ -252,6 +257,11 @@ def q4(rep, w):
     it = iter(names)
     ok = all(x in it for x in want)
     r.check(ok, 'for_statement emits %s in order' % want, 'the for loop\'s opcode sequence is %s' % names, f.loc())
+    # ... each of them on every error-free path (an instruction that is emitted for some loops only - "no store when the variable is
+    # called _" - leaves those loops without that step)
+    cond = [x for x in sorted(set(want)) if not emit.all_clean_paths_pass(f, {bi for (bi, k, o, d) in ev if o == x})]
+    r.check(not cond, 'every instruction of the desugaring is emitted unconditionally', 'for_statement emits %s only on some paths: loops compiled along the other paths lack that step '
+            '(the element is not stored into the loop variable / not fetched / the sentinel not tested)' % cond, f.loc())
     blk = [bi for bi, t in f.calls() if callee_name(t) == P + 'block']
     push = [bi for bi, t in f.calls() if callee_name(t) == 'yarel::compiler::Compiler::push_loop']
     inx = [bi for (bi, k, o, d) in ev if o == 'IterNext']
